@@ -588,5 +588,11 @@ func installPoolMonitor(rep *lib.Report) (stop func()) {
 			delete(live, ev.Pid)
 		}
 	}
-	return func() { rfmt.VerifPoolSink = prev }
+	// an abandoned printer (a panic propagated through its call) is collected without put / drop
+	cancel := onPrinterCollected(func(pid uint64) {
+		mu.Lock()
+		delete(live, pid)
+		mu.Unlock()
+	})
+	return func() { rfmt.VerifPoolSink = prev; cancel() }
 }
